@@ -19,7 +19,8 @@ RULE = ("seeded random exports (0-6 sessions, both layouts, 0-4 contests, 0-6 ma
         "x pool_groups; non-trivial = some candidate has >= 2 marks or a Modified block is present; distinct = hash of "
         "(export, options)")
 REQUIRED = ["ref_compared", "meta:marks_shuffled", "meta:sorted_keys", "meta:modified_first", "layout:cards",
-            "layout:contests", "obfuscated_record_ids", "sessions_with_modified", "sessions_whose_blocks_use_different_layouts", "duplicate_marks_contests",
+            "layout:contests", "obfuscated_record_ids", "sessions_with_modified", "sessions_whose_blocks_use_different_layouts",
+            "group_options_given_as_tuple_set_or_frozenset", "duplicate_marks_contests",
             "uncounted_marks_contests", "directory_reads", "group_filtered_out"]
 ASSUMPTIONS = ["a contest appears at most once per data block of a session (the property does not say which copy wins)"]
 N_CASES = {"quick": 24000, "thorough": 200000}
@@ -231,8 +232,13 @@ def run_case(case, rec):
         def read(ex, **dump_kw):
             with open(path, "w") as f:
                 json.dump(ex, f, **dump_kw)
+            # the group options are collections of group numbers: lists in the documentation, but a tuple, a set or a
+            # frozenset holds the same numbers
+            kind = (list, tuple, set, frozenset)[case.get("mseed", 0) % 4]
+            if kind is not list:
+                rec.count("group_options_given_as_tuple_set_or_frozenset")
             return rec.guard("c19.call:read_cvrs", Dominion.read_cvrs, path, opts["use_current"], opts["enforce_rules"],
-                             opts["include_groups"], opts["pool_groups"])
+                             kind(opts["include_groups"]), kind(opts["pool_groups"]))
 
         ok, cvrs = read(export)
         if not ok:
